@@ -13,6 +13,7 @@ CONSTANTS N,        \* peers 1..N (rank = id), 0 is the local node
           RecAt,    \* peers that hold the record (get)
           ProvAt,   \* peers that return providers (prov); they return ProvSet
           ProvSet,
+          Stale,    \* TRUE: at any time all outstanding requests may become older than the peer timeout
           Late,     \* TRUE: peers that already answered or failed may answer again (unsolicited)
           MaxOps    \* bound on the history length (0 = none)
 
@@ -52,6 +53,8 @@ EnvOps ==
           THEN {RespOp(p, Knows(p)) : p \in m.contacted \ m.inflight}
                \cup {[op |-> "fail", p |-> p] : p \in m.contacted \ m.inflight}
           ELSE {})
+  \cup (IF Stale /\ Kind # "track" /\ ~(m.inflight \subseteq m.stale)
+          THEN {[op |-> "stale", ps |-> m.inflight]} ELSE {})
   \cup (IF m.inflight = {} /\ ImplNext(C, s).ret.a = "none" THEN {[op |-> "quiesce"]} ELSE {})
 
 \* a responder answers with one of *its* answers
